@@ -506,6 +506,10 @@ def gen_content(rng, depth, ctx):
     n = ctx['n'] = ctx['n'] + 1
     style = gen_box_style(rng, ctx)
     sa = ' style="%s"' % style if style else ''
+    if r < 0.03 and ctx.get('fonts_ok', True) and not ctx.get('low'):
+        # a run without any visible glyph in a font of its own: Tf is emitted, the font must stay in /Font
+        return '<p%s>ab<span style="font-family:%s">%s</span>cd</p>' % (
+            sa, rng.choice(['DejaVu Serif', 'DejaVu Sans Mono', 'DejaVu Sans']), rng.choice(INVISIBLE))
     if r < 0.22 or depth > 3:
         return '<p%s>%s</p>' % (sa, ' '.join(rng.choice(WORDS) for _ in range(rng.choice([1, 2, 4, 9]))))
     if r < 0.34:
@@ -579,7 +583,7 @@ def gen_doc(rng, opts):
     margin = rng.choice([0, 5, 10, 20])
     # pdf/ua marks content: avoid opacity together with scale(0) there (F29)
     variant = opts.get('pdf_variant')
-    ctx = {'n': 0, 'ids': [], 'marked': variant == 'pdf/ua-1', 'fonts_ok': not opts.get('pdf_forms')}
+    ctx = {'n': 0, 'ids': [], 'marked': variant == 'pdf/ua-1', 'fonts_ok': not opts.get('pdf_forms'), 'low': low_version(opts)}
     page_extra = ''
     if rng.random() < 0.25:
         page_extra += '@top-center{content:"p " counter(page);color:%s}' % _c(rng)
@@ -621,6 +625,98 @@ def gen_doc(rng, opts):
                 page_extra, first, body))
     return html, {'size': (W, H), 'first_size': first_size, 'bleed': bleed, 'meta': meta, 'forms': ctx.get('forms', False),
                   'svg': ctx.get('svg', False), 'attach': ctx.get('attach', False), 'ids': len(ctx['ids'])}
+
+
+# ---------------------------------------------------------------- documents about the closure of /Font dictionaries
+FAMILIES = ['weasyprint', 'DejaVu Sans', 'DejaVu Serif', 'DejaVu Sans Mono', 'weasyprint-otb']
+INVISIBLE = ['&#x200b;', '&#x200d;', '&shy;', '&lrm;', '&#xfeff;', '&#x2060;', '&#xe000;', '&#x200b;&#x200b;', '&#x200c;']
+
+
+def low_version(opts):
+    """PDF <= 1.4 builds a CIDSet from font.widths: a font that shows no glyph crashes there (open finding F95)"""
+    v = opts.get('pdf_version') or ('1.4' if opts.get('pdf_variant') == 'pdf/a-1b' else None)
+    return v is not None and str(v) <= '1.4'
+
+
+def gen_font_doc(rng, opts):
+    """A small document in which some font is used in an unusual way only: by a run without visible glyph, in
+    generated content, in a margin box, inside an SVG, inside a form field, inside an opacity group or a pattern,
+    for a single glyph, with letter/word spacing.  Every font selected by a Tf must still be in the /Font dictionary
+    of the resources in effect.  Avoids the open crash sites F95 (no glyph shown + PDF <= 1.4) and F96 (bitmap font
+    without glyph)."""
+    base = rng.choice(['weasyprint', 'weasyprint', 'DejaVu Sans'])
+    low = low_version(opts)
+    forms = bool(opts.get('pdf_forms'))
+
+    def other(bitmap_ok=True):
+        fam = rng.choice([f for f in FAMILIES if f != base and (bitmap_ok or f != 'weasyprint-otb')])
+        extra = ''
+        if fam.startswith('DejaVu') and rng.random() < 0.4:
+            extra = rng.choice([';font-weight:bold', ';font-style:italic', ';font-weight:bold;font-style:italic'])
+        return 'font-family:%s%s' % (fam, extra)
+
+    def invisible(font):
+        # bitmap font: a character it does not cover makes chars[] empty (F96)
+        pool = [t for t in INVISIBLE if not ('otb' in font and 'e000' in t)]
+        return rng.choice(pool)
+
+    css, body = [], []
+    npat = rng.choice([1, 1, 2, 3])
+    kinds = rng.sample(['invisible', 'pre-space', 'generated', 'margin-box', 'svg', 'field', 'group', 'pattern', 'single', 'spacing',
+                        'hidden', 'size0', 'invisible', 'invisible-block', 'marker'], npat)
+    for k in kinds:
+        f = other()
+        if k == 'invisible' and not low:
+            body.append('<p>abc<span style="%s">%s</span>def</p>' % (f, invisible(f)))
+        elif k == 'invisible-block' and not low:
+            body.append('<div style="%s;%s">%s</div>' % (f, rng.choice(['', 'opacity:.5', 'transform:rotate(5deg)', 'float:left']), invisible(f)))
+        elif k == 'pre-space':
+            body.append('<pre style="%s;margin:0">%s</pre>' % (f, rng.choice([' ', '\t', '  \t ', '&nbsp;', '&nbsp; &nbsp;', '\n\n', ' a'])))
+        elif k == 'generated':
+            content = rng.choice(['""', '"\\200b"' if not low else '"x"', '" "', '"a"', 'counter(page)', '"\\a0"'])
+            css.append('.g%d::%s{content:%s;%s}' % (len(css), rng.choice(['before', 'after']), content, f))
+            body.append('<p class="g%d">abc</p>' % (len(css) - 1))
+        elif k == 'margin-box':
+            content = rng.choice(['"x"', 'counter(page)', '"\\200b"' if not low else '"y"', '"a b"', '""'])
+            css.append('@page{@%s{content:%s;%s}}' % (rng.choice(['top-center', 'bottom-left', 'left-middle', 'top-right-corner']), content, f))
+        elif k == 'svg':
+            fam = f.split(':')[1].split(';')[0]
+            txt = rng.choice(['a', 'ab c', '&#x200b;' if not low and fam != 'weasyprint-otb' else 'b', ' '])
+            body.append("<img src=\"data:image/svg+xml,<svg xmlns='http://www.w3.org/2000/svg' width='60' height='20'>"
+                        "<text x='2' y='12' font-size='10' font-family='%s'%s>%s</text></svg>\">" % (
+                            fam, rng.choice(['', " font-weight='bold'", " text-anchor='middle'", " opacity='.5'"]), txt))
+        elif k == 'field':
+            # a field font that shows no glyph elsewhere: fine above PDF 1.4 with an outline font (F95/F96 otherwise)
+            ff = other(bitmap_ok=False) if (forms and not low) else ('font-family:%s' % base if forms else f)
+            body.append(rng.choice(['<input value="v" style="%s">', '<textarea style="%s">t</textarea>',
+                                    '<select style="%s"><option>o</option></select>', '<form><input type=checkbox checked style="%s"></form>']) % ff)
+        elif k == 'group':
+            body.append('<div style="opacity:.5"><span style="%s">%s</span></div>' % (f, rng.choice(['a', 'fi', invisible(f) if not low else 'b'])))
+        elif k == 'pattern':
+            fam = f.split(':')[1].split(';')[0]
+            body.append("<div style=\"width:80px;height:30px;background:url(&quot;data:image/svg+xml,<svg xmlns='http://www.w3.org/2000/svg' "
+                        "width='20' height='15'><text y='10' font-size='8' font-family='%s'>%s</text></svg>&quot;) %s\"></div>" % (
+                            fam, rng.choice(['a', 'b']), rng.choice(['repeat', 'repeat-x', 'space', 'no-repeat'])))
+        elif k == 'single':
+            body.append('<p>abc <span style="%s">%s</span> def</p>' % (f, rng.choice(['a', 'f', 'A', '.', '1'])))
+        elif k == 'spacing':
+            body.append('<p style="%s;letter-spacing:%s;word-spacing:%s">%s</p>' % (
+                f, rng.choice(['3px', '-1px', '0', '1em']), rng.choice(['-2px', '5px', 'normal']), rng.choice(['a b', 'ab cd ef', 'a'])))
+        elif k == 'hidden':
+            body.append('<p style="%s;visibility:hidden">abc</p>' % f)
+        elif k == 'size0':
+            body.append('<p style="%s;font-size:0">abc</p>' % f)
+        elif k == 'marker':
+            css.append('li.m%d::marker{%s;content:%s}' % (len(css), f, rng.choice(['"*"', '"\\200b"' if not low else '"-"', 'counter(list-item)'])))
+            body.append('<ul><li class="m%d">abc</li></ul>' % (len(css) - 1))
+        else:
+            body.append('<p>abc <span style="%s">d</span></p>' % f)
+    rng.shuffle(body)
+    W, H = rng.choice([(200, 100), (150, 150), (120, 60)])
+    html = ('<html><head><style>@font-face{src:url(weasyprint.otb);font-family:weasyprint-otb}'
+            '@page{size:%dpx %dpx;margin:15px}body{font-family:%s;font-size:10px;line-height:12px;margin:0}%s</style></head>'
+            '<body><p>abcdefgh Hello</p>%s</body></html>' % (W, H, base, ''.join(css), ''.join(body)))
+    return html, {'size': (W, H), 'first_size': None, 'bleed': 0, 'kinds': kinds}
 
 
 def gen_options(rng):
@@ -752,7 +848,61 @@ def judge_pdf(pdf, case, pages):
         skeletons.append(skeleton(ops))
         for clause, detail in pdfread.check_content(ops, res, doc):
             bad.append((clause, '%s: %s' % (where, detail)))
-    return {'bad': bad[:40], 'stats': stats, 'skeletons': skeletons}
+    return {'bad': bad[:40], 'stats': stats, 'skeletons': skeletons, 'closure': closure_case(doc)}
+
+
+def closure_case(doc):
+    """what closure_judge (coq/model/C16Closure.v) is evaluated on: per content stream the names defined by the resource
+    dictionary in effect and the names its operators use (category index, interned name), the object numbers of the
+    file and the object numbers referenced from anywhere"""
+    names = {}
+    nodes = []
+    for f in pdfread.closure_facts(doc):
+        defs = [(ci, names.setdefault(n, len(names))) for ci, cat in enumerate(pdfread.CATEGORIES) for n in f['defs'][cat]]
+        uses = sorted({(pdfread.CATEGORIES.index(cat), names.setdefault(n, len(names))) for cat, n in f['uses']})
+        nodes.append({'where': f['where'], 'defs': defs, 'uses': uses})
+    refs = set()
+    for num, val in doc.objects.items():
+        for r in doc.refs_in(val):
+            refs.add(r.num)
+    for r in doc.refs_in(doc.trailer):
+        refs.add(r.num)
+    return {'nodes': nodes, 'objs': sorted(doc.objects), 'refs': sorted(refs), 'names': {v: k for k, v in names.items()}}
+
+
+PRE_CLO = ('From Coq Require Import ZArith List Bool.\nRequire Import WV.model.C16Closure.\n'
+           'Import ListNotations.\nOpen Scope Z_scope.\n')
+
+
+def cclosure(c):
+    rn = lambda u: '(%d%%nat, %s)' % (u[0], zlit(u[1]))
+    nodes = clist('(nmk %s %s)' % (clist(rn(u) for u in n['defs']), clist(rn(u) for u in n['uses'])) for n in c['nodes'])
+    return '(%s, (%s, %s))' % (nodes, clist(zlit(x) for x in c['objs']), clist(zlit(x) for x in c['refs']))
+
+
+def judge_closure(run, docs, tag, stream):
+    """docs: [(case, verdict)]; evaluates closure_judge in Coq on every parsed output"""
+    items = [(c, v) for c, v in docs if v.get('closure')]
+    masks = common.eval_cases(tag, PRE_CLO, 'list node * (list Z * list Z)', [cclosure(v['closure']) for _, v in items],
+                              'closure_judge', per_file=40) if items else []
+    nuses = 0
+    for (c, v), m in zip(items, masks):
+        nuses += sum(len(n['uses']) for n in v['closure']['nodes'])
+        if m:
+            clo = v['closure']
+            detail = []
+            for n in clo['nodes']:
+                for u in n['uses']:
+                    if u not in [tuple(d) for d in n['defs']] and list(u) not in n['defs']:
+                        detail.append('%s uses /%s (%s) which its resource dictionary does not define' % (
+                            n['where'], clo['names'].get(u[1], clo['names'].get(str(u[1]))), pdfread.CATEGORIES[u[0]]))
+            missing = sorted(set(clo['refs']) - set(clo['objs']))
+            if missing:
+                detail.append('references to absent objects %s' % missing[:6])
+            run.fail('resource closure fails (Coq closure_judge mask %d): %s' % (m, '; '.join(detail[:3])),
+                     {'stream': stream, 'html': c['html'], 'options': c.get('options'), 'zoom': c.get('zoom', 1), 'detail': detail[:10]},
+                     signature='pdf:closure')
+    return len(items), nuses
 
 
 def _streams_of(pdf):
@@ -1345,6 +1495,9 @@ WITNESSES = {
     'F29-ua-opacity-scale0(fixed dd3d4b1)': (None, {
         'html': '<style>@page{size:100px;margin:0}body{font-family:weasyprint;font-size:10px;margin:0}</style>'
                 '<div style="opacity:.5;transform:scale(0)">abc</div>', 'options': {'pdf_variant': 'pdf/ua-1'}, 'record': True}),
+    'font-of-invisible-run-stays-in-Font-dictionary': (None, {
+        'html': '<style>@page{size:200px 100px;margin:0}body{margin:0;font-size:20px;font-family:DejaVu Sans}span{font-family:weasyprint}</style>'
+                '<p>abc<span>&#x200b;</span>def</p>', 'options': {'uncompressed_pdf': True}, 'record': False}),
     'F66-svg-marker-on-single-vertex-path': (F66, {
         'html': '<style>@page{size:100px;margin:0}</style><img src="data:image/svg+xml,<svg xmlns=\'http://www.w3.org/2000/svg\' width=\'40\' height=\'40\'>'
                 '<defs><marker id=\'k\' markerWidth=\'6\' markerHeight=\'6\' orient=\'auto\'><circle cx=\'3\' cy=\'3\' r=\'2\'/></marker></defs>'
@@ -1391,10 +1544,15 @@ def judge_traces(run, docs, tag):
     return items, masks, skipped
 
 
+def _mark(run, name):
+    import time
+    run.cov.setdefault('timeline', []).append((name, round(time.time() - run.t0, 1)))
+
+
 def check(run):
     rng = random.Random(run.seed * 7919 + 16)
     thorough = run.tier == 'thorough'
-    common.prove(run, 'C16', ['model/C16Stream.vo', 'model/C16Res.vo'])
+    common.prove(run, 'C16', ['model/C16Stream.vo', 'model/C16Res.vo', 'model/C16Closure.vo'])
     run.trusted += ['Coq 8.16.1 kernel (coqc); vm_compute for the cases.v evaluation',
                     'harness/pdfread.py (independent PDF reader, ISO 32000-1 Annex A operator table) and the judges of harness/p_c16.py (Python)',
                     'harness/impl_c16.py: decoding of Stream.stream items into model tokens; the call recorder (wraps the methods of weasyprint.pdf.stream.Stream in the worker process)',
@@ -1403,6 +1561,7 @@ def check(run):
                         'content of fonts, images and attachments is judged by decodability only (font tables: C16 partial)',
                         'reference interpreter: fill/stroke colour, alpha constants, font, CTM, text matrix, q/Q stack; dash, line width, clip, blend mode and soft mask are not cached by Stream and therefore not part of skip soundness']
 
+    _mark(run, '1')
     # ---- stream 1: direct calls on a real Stream vs the Coq model (all sequences: well bracketed or not)
     try:
         kept, masks = check_stream_direct(run, rng, 2400 if thorough else 480)
@@ -1431,6 +1590,7 @@ def check(run):
     except RuntimeError as exc:
         run.oblige('corr:stream-direct', False, str(exc))
 
+    _mark(run, '1b')
     # ---- stream 1b: resource naming, direct calls on a root Stream and the streams it creates
     try:
         kept, masks = check_res_direct(run, rng, 1500 if thorough else 300)
@@ -1453,6 +1613,7 @@ def check(run):
     except RuntimeError as exc:
         run.oblige('corr:res-direct', False, str(exc))
 
+    _mark(run, '2')
     # ---- stream 2: AST pass = premise of the bracket theorem for the real call sites
     problems, swallow, stats = ast_pass(common.REPO)
     for pr in problems[:3]:
@@ -1464,6 +1625,7 @@ def check(run):
                                 'push_state/begin_text/begin_marked_content or their closers: all paths, receivers by identity, '
                                 'correlated conditions', exception_swallowing_sites=[list(x) for x in swallow], **stats)
 
+    _mark(run, '3')
     # ---- stream 3: known-defect witnesses (replayed; tell whether they still reproduce)
     wit_cases = [dict(c, keep_pdf=False) for _, (_, c) in sorted(WITNESSES.items())]
     wouts = common.run_impl('impl_c16', 'render_pdf', wit_cases, limit=60, chunksize=1)
@@ -1489,6 +1651,7 @@ def check(run):
     run.stream_info('witness', rule='minimal documents of the findings of this property: regression probes of the fixed ones, '
                     'the open one (F66) reported through its registered signature', reproduce=witness_state)
 
+    _mark(run, '4')
     # ---- stream 4: monitor over the document grammar x options
     ndocs = 1600 if thorough else 230
     cases = []
@@ -1518,6 +1681,41 @@ def check(run):
                     'named resources in the dictionary in effect), compressed = uncompressed after decoding',
                     option_combinations=len(optcov), variants=sorted({str(c['options'].get('pdf_variant')) for c in cases}), **agg)
 
+    _mark(run, '4b')
+    # ---- stream 4b: documents about the closure of the /Font dictionaries
+    nf = 500 if thorough else 70
+    fcases = []
+    for i in range(nf):
+        opts, zoom = gen_options(rng)
+        html, exp = gen_font_doc(rng, opts)
+        fcases.append({'html': html, 'options': opts, 'zoom': zoom, 'expect': exp, 'record': False, 'twin': False})
+    fouts = common.run_impl('impl_c16', 'render_pdf', fcases, limit=90, chunksize=2)
+    fgood = []
+    for c, (st, o) in zip(fcases, fouts):
+        v = classify_doc(run, c, st, o, 'fonts')
+        if v is not None:
+            fgood.append((c, v))
+    run.count('fonts', len(fcases), [('kinds', tuple(sorted(c['expect']['kinds'])), c['options'].get('pdf_variant'), bool(c['options'].get('pdf_forms')))
+                                      for c, _ in fgood], samples=[fcases[0]['html'][:600]])
+    run.stream_info('fonts', rule='small documents where a font is used only by a run without visible glyph (ZWSP, ZWJ, SHY, LRM, BOM, '
+                    'WJ, private use), by white space in <pre>, in ::before/::after/::marker content (empty or not), in a page margin '
+                    'box, inside an SVG image or an SVG background pattern, inside a form field, inside an opacity group, for one '
+                    'glyph, with letter/word spacing, hidden or at font-size 0; x all options; judged like the monitor documents',
+                    fonts_defined=sum(sum(1 for n in v['closure']['nodes'] for u in n['defs'] if u[0] == 0) for _, v in fgood),
+                    tf_uses=sum(sum(1 for n in v['closure']['nodes'] for u in n['uses'] if u[0] == 0) for _, v in fgood))
+
+    _mark(run, '4c')
+    # ---- stream 4c: resource closure of every parsed output judged in Coq (closure_judge)
+    try:
+        nclo, nuses = judge_closure(run, good + fgood, 'c16clo', 'closure')
+        run.count('closure', nclo, [('doc', i) for i in range(nclo)])
+        run.stream_info('closure', names_used=nuses, rule='per content stream (pages, form XObjects, tiling patterns, soft-mask groups, '
+                        'annotation appearances, Type3 glyph procedures): names used by Tf/Do/gs/sh/cs/scn/BDC vs names defined by '
+                        'the resource dictionary in effect, and references vs objects of the file; closure_judge under vm_compute')
+    except RuntimeError as exc:
+        run.oblige('spec:closure-eval', False, str(exc))
+
+    _mark(run, '5')
     # ---- stream 5: recorded Stream calls of those renders: model = implementation, premises and conclusions
     try:
         docs = [(c, v) for c, v in good if v.get('traces')] + [(c, o) for c, o, _, _ in wdocs]
@@ -1556,6 +1754,7 @@ def check(run):
     except RuntimeError as exc:
         run.oblige('corr:stream-traces', False, str(exc))
 
+    _mark(run, '6')
     # ---- stream 6: bracket skeleton of every decoded content stream judged by the Coq specification
     try:
         sk = [(ci, s) for ci, (c, v) in enumerate(good) for s in v['skeletons'] if len(s) <= 6000]
@@ -1601,7 +1800,7 @@ def _has_pair(ops, a, b):
 def replay(data):
     d = data.get('data', {})
     stream = d.get('stream')
-    if stream in ('monitor', 'witness', 'traces', 'skeleton'):
+    if stream in ('monitor', 'witness', 'traces', 'skeleton', 'fonts', 'closure'):
         case = {'html': d['html'], 'options': d.get('options') or {}, 'zoom': d.get('zoom', 1), 'expect': d.get('expect'),
                 'record': True, 'twin': True}
         (st, o), = common.run_impl('impl_c16', 'render_pdf', [case], limit=120)
@@ -1615,6 +1814,10 @@ def replay(data):
             masks = common.eval_cases('c16replay', PRE, TRACE_T, [ctrace(tr) for _, tr in items], 'trace_judge', per_file=60)
             print('replay: trace masks', masks)
             rc = rc or (1 if any(m & (1 | 2 | 4 | 8 | 16 | 128) for m in masks) else 0)
+        if o.get('closure'):
+            cm = common.eval_cases('c16replay', PRE_CLO, 'list node * (list Z * list Z)', [cclosure(o['closure'])], 'closure_judge')
+            print('replay: closure_judge mask', cm)
+            rc = rc or (1 if cm[0] else 0)
         return rc
     if stream == 'stream-direct':
         (st, o), = common.run_impl('impl_c16', 'stream_direct', [d['case']])
